@@ -39,6 +39,22 @@ func vxHasByte(s string, c byte) bool {
 	return false
 }
 
+func vxIsHex(c byte) bool {
+	return ('0' <= c && c <= '9') || ('a' <= c && c <= 'f') || ('A' <= c && c <= 'F')
+}
+
+// vxBadEscape: does s contain a '%' that is not followed by two hex digits?
+func vxBadEscape(s string) bool {
+	for i := 0; i < len(s); i++ {
+		if s[i] == '%' {
+			if i+2 >= len(s) || !vxIsHex(s[i+1]) || !vxIsHex(s[i+2]) {
+				return true
+			}
+		}
+	}
+	return false
+}
+
 // vxModelURLParse models url.Parse(raw) for raw = "<letters>:" + rest.
 func vxModelURLParse(raw string) (*url.URL, error) {
 	u, frag, _ := vxCutByte(raw, '#')
@@ -85,8 +101,9 @@ func vxModelURLParse(raw string) (*url.URL, error) {
 	}
 	res.Opaque = rest
 	if frag != "" {
-		// setFragment fails on malformed %-escapes; otherwise the fragment is stored
-		if vxHasByte(frag, '%') && vxBool() {
+		// setFragment fails on malformed %-escapes (unescape in fragment mode: every '%' must be
+		// followed by two hex digits; nothing else is rejected); otherwise the fragment is stored
+		if vxBadEscape(frag) {
 			return nil, errVxURL
 		}
 		res.Fragment = frag
